@@ -328,6 +328,8 @@ class UnmanagedBSE(ManagedBSE):
         # results after close
         if res and res[0] == 'ok' and res[1:2] in (('object',), ('removed',)) and a[0] in ('uget', 'poll') and s.started_after_close(st, a):
             vio('C12', 'a get issued after close() returned yielded an object')
+        if res and res[0] == 'err' and a[0] in ('uget', 'poll') and res[1] not in ('Closed', 'NoRuntimeSpecified') and s.started_after_close(st, a):
+            vio('C12', f'a get issued after close() returned reported {res[1]}, not Closed')
         if res and res[0] == 'panic' and not any(e[0] == 'panic' and e[2] == 'user' for e in st.log):
             vio('C12', 'an unmanaged pool call panicked')
         if a[0] == 'uadd' and res:
@@ -342,6 +344,7 @@ class UnmanagedBSE(ManagedBSE):
                     elif not s.cfg['thread_mode'] and s.M.feasible(st, z(binop('Lt', I(n_resp + n_wait), st.gget('max_size')))):
                         vio('C05', f'try_add() reported Timeout although the pool held only {n_resp} objects')
                 if res[1] == 'Closed' and not st.gget('close_started'): vio('C12', 'add reported Closed on an open pool')
+                if res[1] != 'Closed' and s.started_after_close(st, a): vio('C12', f'{v}() issued after close() returned reported {res[1]}, not Closed')
             if res[0] == 'ok':
                 if s.started_after_close(st, a): vio('C12', 'an object was added to a pool after close() returned')
                 elif not s.cfg['thread_mode'] and not st0.gget('close_started') and s.M.feasible(st, z(binop('Ge', I(n_resp), st.gget('max_size')))):
